@@ -310,11 +310,16 @@ impl<'a, D: Dataset + ?Sized> ExecState<'a, D> {
     fn graph_rec(
         &mut self,
         var: &str,
-        mut graph_names: std::collections::btree_set::IntoIter<ArcTerm>,
+        graph_names: std::collections::btree_set::IntoIter<ArcTerm>,
         inner: &GraphPattern,
         binding: Option<&Binding>,
     ) -> Result<Bindings<'a, D>, SparqlWrapperError<D::Error>> {
-        if let Some(name) = graph_names.next() {
+        // a loop and one flat iterator over the per-graph results,
+        // not one recursive call and one more nested `chain` per graph name
+        // (building, consuming and dropping the result all used one stack frame per graph)
+        let mut first_variables = None;
+        let mut iters: Vec<Box<dyn Iterator<Item = _> + 'a>> = Vec::new();
+        for name in graph_names {
             // `var` is not in scope inside `inner`: evaluate `inner` on the named graph,
             // then join each solution with { var -> name }
             let graph_matcher = vec![Some(name.clone())];
@@ -338,15 +343,12 @@ impl<'a, D: Dataset + ?Sized> ExecState<'a, D> {
                     }
                 },
             });
-            let iter = Box::new(iter.chain(Box::new(
-                self.graph_rec(var, graph_names, inner, binding)?.iter,
-            )));
-            Ok(Bindings { variables, iter })
-        } else {
-            let variables = vec![];
-            let iter = Box::new(std::iter::empty());
-            Ok(Bindings { variables, iter })
+            first_variables.get_or_insert(variables);
+            iters.push(Box::new(iter));
         }
+        let variables = first_variables.unwrap_or_default();
+        let iter = Box::new(iters.into_iter().flatten());
+        Ok(Bindings { variables, iter })
     }
 
     fn extend(
